@@ -11,7 +11,18 @@ META = {
                  "parser with Python index semantics, _validate with the interpreter's recursion limit as an explicit "
                  "argument) + exact correspondence (outcome class, error line, canonical dump of the Schema) between the model "
                  "evaluated inside Coq and the Python module of the working tree on generated, mutated and random texts",
-    "text": "PLACEHOLDER",
+    "text": "Proved in Coq of the model, for every text (any list of code points) and every frame budget rl: parse_string returns a "
+            "schema, or raises SchemaError with a line in 1..(newlines+1), or raises RecursionError and then only if rl < number of "
+            "declared groups + 2 (C41_total; IndexError from reading the token list past its end, KeyError, the TypeError branches and "
+            "loop-fuel exhaustion are excluded for all inputs). The unconditional claim 'no other exception escapes' is refuted "
+            "(C41_recursion_refuted: a valid 1001-group `use` chain raises RecursionError for every frame budget up to CPython's default "
+            "limit of 1000; C41_recursion_monotone: running out of frames in the cycle check is monotone in the budget) and the witness is "
+            "replayed on the implementation on every run. Soundness is proved in full (C41_sound: Ok s => WellFormed s, the declarative "
+            "conjunction of every parse-time and _validate rule; C41_validate_sound for arbitrary schema values), as is 'a schema breaking "
+            "a rule is rejected with a SchemaError' (C41_complete_rule_breaking_rejected, under the recursion proviso). NOT proved: that "
+            "every well-formed schema is accepted (only observed on generated valid schemas). The model is tied to doc/generate/mjcf_schema.py by exact comparison of "
+            "outcome class, error line and a dump of the whole Schema (names, types, arities, defaults as binary64 bit patterns, facets, "
+            "doc comments, line numbers), not by translation.",
     "note": "Trusted: Coq kernel; the hand-written model Model/SchemaLang.v (CPython conventions listed in its header: Unicode "
             "\\d table, int() digit limit 4300, float() = nearest binary64, str.strip() white space, frame accounting of the "
             "recursion limit calibrated by the driver); the correspondence harness (harness/drivers/c41_parse.py under "
@@ -29,7 +40,8 @@ KINDS = ['exclusive', 'together', 'requires', 'oneof']
 KNOWN_FACETS = ['field', 'required', 'nodefault', 'pattern', 'reading', 'writing', 'min', 'max', 'positive']
 ELEMENT_FACETS = ['xml', 'alias', 'field']
 IMPORTS = "From Coq Require Import ZArith NArith.\nFrom MJV Require Import Model.SchemaLang."
-UNBOUNDED_RL = 1000000
+UNBOUNDED_RL = 100000
+PAD = '(TB ""%bt, 5%N, [0; 3; 7000049000091]%Z)'
 
 
 def lit(text):
@@ -874,29 +886,69 @@ def wellformed(s, nlines):
         for m in c['members']:
             if m['k'] == 'use' and m['group'] not in G:
                 bad.append('no dangling use')
+    # iterative three-colour depth-first search (texts with very deep use chains are part of the input space)
     color = {}
-
-    def dfs(n):
-        color[n] = 1
-        for m in G[n]['members']:
-            if m['k'] == 'use' and m['group'] in G:
-                c = color.get(m['group'], 0)
-                if c == 1 or (c == 0 and dfs(m['group'])):
-                    return True
-        color[n] = 2
-        return False
-    cyclic = any(color.get(n, 0) == 0 and dfs(n) for n in G)
+    cyclic = False
+    for root in G:
+        if color.get(root, 0) or cyclic:
+            continue
+        color[root] = 1
+        work = [(root, iter([m['group'] for m in G[root]['members'] if m['k'] == 'use' and m['group'] in G]))]
+        while work and not cyclic:
+            node, it = work[-1]
+            nxt = next(it, None)
+            if nxt is None:
+                color[node] = 2
+                work.pop()
+            elif color.get(nxt, 0) == 1:
+                cyclic = True
+            elif color.get(nxt, 0) == 0:
+                color[nxt] = 1
+                work.append((nxt, iter([m['group'] for m in G[nxt]['members'] if m['k'] == 'use' and m['group'] in G])))
     if cyclic:
         bad.append('acyclic use graph')
     namespaces = {m['target'] for c in conts for m in c['members'] if m['k'] == 'attr' and m['type'] == 'id'}
 
-    def expand(members, depth=0):
+    memo = {}
+
+    def group_expansion(name):
+        """expanded attributes of a group (use graph is acyclic here), bottom-up without recursion"""
+        order, seen, work = [], set(), [name]
+        while work:
+            n = work.pop()
+            if n in seen or n in memo:
+                continue
+            seen.add(n)
+            order.append(n)
+            work += [m['group'] for m in G[n]['members'] if m['k'] == 'use' and m['group'] in G]
+        # dependencies first: repeat until every group of the closure is resolved (acyclic => terminates)
+        pending = list(reversed(order))
+        while pending:
+            rest = []
+            for n in pending:
+                deps = [m['group'] for m in G[n]['members'] if m['k'] == 'use' and m['group'] in G]
+                if all(d in memo for d in deps):
+                    out = []
+                    for m in G[n]['members']:
+                        if m['k'] == 'attr':
+                            out.append(m)
+                        elif m['k'] == 'use' and m['group'] in G:
+                            out += memo[m['group']]
+                    memo[n] = out
+                else:
+                    rest.append(n)
+            if len(rest) == len(pending):
+                break
+            pending = rest
+        return memo.get(name, [])
+
+    def expand(members):
         out = []
         for m in members:
             if m['k'] == 'attr':
                 out.append(m)
-            elif m['k'] == 'use' and m['group'] in G and depth < len(G) + 1:
-                out += expand(G[m['group']]['members'], depth + 1)
+            elif m['k'] == 'use' and m['group'] in G:
+                out += group_expansion(m['group'])
         return out
     for g in s['groups']:
         if not g['members']:
@@ -1116,6 +1168,49 @@ def float_strings(rng, n):
     return out
 
 
+# hand-written boundary cases: (text, expectation)
+FIXED = [
+    ('element a { x : double[3..3] }', 'reject'), ('element a { x : double[0..0] }', 'reject'),
+    ('element a { x : double[2..3] }', 'accept'), ('element a { x : double[0..1] = 1 }', 'accept'),
+    ('element a { x : double[3 .. 2] }', 'reject'), ('element a { x : chars[0] }', 'accept'),
+    # end of input at every place where the parser calls next()
+    ('enum', None), ('enum e', None), ('enum e :', None), ('enum e {', None), ('enum e { a', None), ('enum e { a =', None),
+    ('enum e { a = 1', None), ('enum e { "a"', None), ('group', None), ('group g', None), ('group g variant', None),
+    ('group g {', None), ('group g { use', None), ('group g { a', None), ('group g { a :', None), ('group g { a : int', None),
+    ('group g { a : int [', None), ('group g { a : int [1', None), ('group g { a : int [1..', None), ('group g { a : int [1..2', None),
+    ('group g { a : int =', None), ('group g { a : int = {', None), ('group g { a : int = {1', None), ('group g { a : int = {1,', None),
+    ('group g { a : int (', None), ('group g { a : int (min', None), ('group g { a : int (min=', None), ('group g { a : int (min=1', None),
+    ('group g { a : int (min=1,', None), ('group g { a : enum', None), ('group g { a : enum<', None), ('group g { a : enum<e', None),
+    ('element', None), ('element e', None), ('element e :', None), ('element e (', None), ('element e (xml', None),
+    ('element e (xml=', None), ('element e {', None), ('element e { child', None), ('element e { child e', None),
+    ('element e { set', None), ('element e { set a', None), ('element e { set a =', None), ('element e { exclusive', None),
+    ('element e { exclusive a', None), ('element e { exclusive a +', None), ('element e { exclusive a b', None),
+    ('element e { a : int\n exclusive a a', None), ('element e { a : int\n exclusive a +\n a a', None),
+    ('element e { a : int\n requires a a\n}', 'accept'), ('element e { a : int\n requires a\n a }', None),
+    # same-line duplicates, duplicates whose first declaration is later in the text (via use)
+    ('element e { a : int a : int }', 'reject'), ('element e {\n a : int\n a : int }', 'reject'),
+    ('element e {\n use g\n a : int\n}\ngroup g {\n a : int\n}', 'reject'),
+    ('group g {\n a : int\n}\nelement e {\n a : int\n use g\n}', 'reject'),
+    # group and element tables are separate; keywords as names
+    ('group x { a : int }\nelement x { use x }\nenum x { x = x }', 'accept'), ('group group { group : int }\ngroup variant variant { variant : int }', 'accept'),
+    ('group g { a : int }\ngroup g { b : int }', 'reject'), ('enum g { a = 1 }\nenum g { b = 1 }', 'reject'),
+    ('element g { }\nelement g { }', 'reject'),
+    # facets: True counts as a number for min/max, truthiness of required/positive
+    ('element e { a : int (min, max=0.5) }', 'reject'), ('element e { a : int (min, max=1) }', 'accept'),
+    ('element e { a : int = 1 (required=0) }', 'accept'), ('element e { a : int = 1 (required="") }', 'accept'),
+    ('element e { a : int = 1 (required=x) }', 'reject'), ('element e { a : string (positive=0) }', 'accept'),
+    ('element e { a : string (positive) }', 'reject'), ('element e { a : flags<f> = 1 }\nenum f { a = 1 }', 'accept'),
+    ('element e (xml) { }', 'reject'), ('element e (alias=e) { }', 'accept'), ('element e (field) { }', 'accept'),
+    # lexer corner cases
+    ('element e { a : double[0..3] = {0.5, .25, 1e-3} }', 'accept'), ('element e { a : double = 1..2 }', None),
+    ('element e { a : double = 1.e5 }', 'accept'), ('element e { a : double = 1e }', None), ('element e { a : double = - 1 }', None),
+    ('element e { a : double = 1. }', 'accept'), ('element e { a : double[1.] }', 'reject'), ('element e { a : double[1...3] }', None),
+    ('element e { a : string = "x\ny" }', None), ('element e { a : string = "x" # c "\n}', 'accept'), ('#', 'accept'), ('\r', None),
+    ('element e { a : double[٣] = {٣.٥e١, ١, -٠} }', 'accept'), ('element e { a : double[-0] }', None),
+    ('element e { a : double[%s] }' % ('0' * 4300), None), ('element e { a : double[%s] }' % ('0' * 4301), 'reject'),
+]
+
+
 def chain_text(n, shape, rng=None):
     s = ''.join('group g%d { use g%d }\n' % (i, i + 1) for i in range(n - 1))
     last = {'plain': 'a : int', 'elem': 'a : int', 'cycle': 'use g0', 'dangling': 'use nosuch', 'selfloop': 'use g%d' % (n - 1)}[shape]
@@ -1133,7 +1228,7 @@ def hashed(ints):
         return ints
     h = 0
     for x in ints[1:]:
-        h = (h * 1000003 + x + 7) % 2305843009213693951
+        h = (h * 1000003 + x + 7) & 2305843009213693951
     return [0, len(ints) - 1, h]
 
 
@@ -1161,6 +1256,7 @@ def run(ctx):
     quick = ctx.tier == "quick"
     t_start = time.time()
     ctx.coq_props(allowed_axioms=(), extra_targets=["Model/SchemaLang.vo"])
+    t_props = time.time()
     schema_path = os.path.join(ctx.repo, "src", "xml", "mjcf.schema")
     try:
         real = open(schema_path, encoding='utf-8').read()
@@ -1180,11 +1276,13 @@ def run(ctx):
         cases.append(("real", real, None, 'accept'))
         cases.append(("empty", "", None, 'accept'))
         cases.append(("empty", "\n\n# only a comment", None, 'accept'))
-        nvalid = 250 if quick else 6000
+        for t, ex in FIXED:
+            cases.append(("fixed", t, None, ex))
+        nvalid = 120 if quick else 4000
         for i in range(nvalid):
             sch = gen.schema()
             cases.append(("valid", render(sch, rng, style=rng.random() < 0.85), None, 'accept'))
-        per_rule = 6 if quick else 120
+        per_rule = 3 if quick else 70
         for name, f in muts:
             done = 0
             for _ in range(per_rule * 4):
@@ -1196,7 +1294,7 @@ def run(ctx):
                 done += 1
                 cases.append(("break:" + name, render(sch, rng, style=rng.random() < 0.7), None, 'reject'))
         decls = split_decls(real)
-        nslice = 120 if quick else 2500
+        nslice = 60 if quick else 2000
         for i in range(nslice):
             k = rng.choice([1, 1, 2, 3])
             j = rng.randrange(len(decls))
@@ -1208,30 +1306,32 @@ def run(ctx):
                 cases.append(("slice-token", token_mutation(sl, rng), None, None))
             else:
                 cases.append(("slice-byte", byte_mutation(sl, rng), None, None))
-        for i in range(150 if quick else 4000):
+        for i in range(80 if quick else 2700):
             sch = gen.schema(size=1)
             t = render(sch, rng)
             for _ in range(rng.choice([1, 1, 2])):
                 t = token_mutation(t, rng) if rng.random() < 0.5 else byte_mutation(t, rng)
             cases.append(("gen-mutated", t, None, None))
-        for i in range(200 if quick else 5000):
+        for i in range(100 if quick else 3300):
             n = rng.randrange(1, 40)
             cases.append(("tokens", ' '.join(rng.choice(VOCAB) for _ in range(n)), None, None))
-        for i in range(150 if quick else 4000):
+        for i in range(80 if quick else 2700):
             cases.append(("numbers", number_text(rng), None, None))
-        for s in float_strings(rng, 200 if quick else 5000):
+        for s in float_strings(rng, 110 if quick else 2700):
             cases.append(("float", 'element a { x : double = %s (min=%s) }' % (s, s), None, None))
         # recursion limit, lowered by the driver so that rl frames are available below _validate
         for rl in ([12, 23] if quick else [12, 17, 23, 40, 61]):
             for shape in ('plain', 'elem', 'cycle', 'dangling', 'selfloop'):
                 for n in range(rl - 3, rl + 3):
                     cases.append(("limit:" + shape, chain_text(n, shape), rl, None))
-        for i in range(20 if quick else 300):
+        for i in range(10 if quick else 200):
             rl = rng.randrange(10, 30)
             sch = gen.schema(size=4)
             cases.append(("limit:valid", render(sch, rng, style=False), rl, None))
         # the default interpreter limit: design-time probe (DESIGN.md section 7 item 3)
-        cases.append(("deep-chain", chain_text(1200, 'plain'), None, 'accept'))
+        # (VERIF_C41_NO_DEEP=1 leaves it out: used by the self-tests to see the other alarms of a mutant on their own)
+        if not os.environ.get("VERIF_C41_NO_DEEP"):
+            cases.append(("deep-chain", chain_text(1200, 'plain'), None, 'accept'))
 
     res = run_driver(ctx, cases)
     if res is None:
@@ -1284,7 +1384,7 @@ def run(ctx):
                               observed="accepted although: " + "; ".join(sorted(set(bad))[:4]), theorem="C41_sound",
                               signature={"site": "_validate", "class": sorted(set(bad))[0]})
             elif expect == 'reject':
-                ctx.violation("impl_violation", small, expected="SchemaError: the text breaks rule '%s'" % fam.split(":", 1)[1],
+                ctx.violation("impl_violation", small, expected="SchemaError: the text breaks rule '%s'" % fam.split(":", 1)[-1],
                               observed="accepted", theorem="C41_complete", signature={"site": "_validate", "class": fam})
         else:
             ctx.broken.append(("correspondence", "unparsable driver output", repr(ints[:5])))
@@ -1292,7 +1392,13 @@ def run(ctx):
         if ntok >= 8:
             nontriv.add(text)
         model_rl = UNBOUNDED_RL if unbounded else (rl if rl is not None else default_rl)
-        coq_cases.append("(%s, %d%%N, %s)" % (lit(text), model_rl, F.zlist(hashed(ints))))
+        if unbounded and fam == "deep-chain":
+            # the repaired implementation accepts it; the model keeps the original one-frame-per-use-edge algorithm, whose
+            # 10^8 steps on this text are not worth evaluating inside Coq: compared on the implementation side only
+            coq_cases.append(PAD)
+            ctx.cov["support"]["deep_chain"] = "accepted by the implementation (no recursion limit any more); not evaluated in the model"
+        else:
+            coq_cases.append("(%s, %d%%N, %s)" % (lit(text), model_rl, F.zlist(hashed(ints))))
 
     # ---------------------------------------------------------------- model vs implementation, inside Coq
     order = sorted(range(len(cases)), key=lambda i: -len(cases[i][1]))
@@ -1307,7 +1413,7 @@ def run(ctx):
     perm = [i for sh in shards for i in sh]
     maxshard = max(len(sh) for sh in shards)
     # coq_eval shards consecutively with a fixed size: pad with a trivially true case
-    pad = '(TB ""%bt, 5%N, [0; 3; 7000049000091]%Z)'
+    pad = PAD
     flat, back = [], []
     for sh in shards:
         for i in sh:
@@ -1368,7 +1474,7 @@ def run(ctx):
     pick = [c for c in cases if c[0] in ("valid", "break:duplicate_attr_via_use", "slice-token")][:3] or cases[:3]
     ctx.cov["samples"] = [{"family": f, "text": t[:600], "rl": rl} for f, t, rl, _ in pick]
     ctx.cov["correspondence_disagreements"] = len(fails)
-    ctx.cov["support"]["timing_s"] = {"implementation": round(t_impl - t_start, 1), "model_in_coq": round(t_model - t_impl, 1)}
+    ctx.cov["support"]["timing_s"] = {"coq_theorems": round(t_props - t_start, 1), "implementation": round(t_impl - t_props, 1), "model_in_coq": round(t_model - t_impl, 1)}
     ctx.cov["explanation"] = ("Totality/line-bound/soundness theorems are proved of the model for all texts; the model is tied to "
                               "doc/generate/mjcf_schema.py by exact comparison of outcome class, error line and schema dump on %d texts; an "
                               "independent well-formedness oracle runs on every accepted implementation output, and every rule-breaking text "
